@@ -388,8 +388,8 @@ static bool exec_queue(const std::string& prim, int ex, vt::Rng& r) {
     if (wrap) { start = (uint64_t)0 - 1 - r.below(2 * cap + 2); q->preset(start); }
     // the MPMC full test is "tail and head coincide modulo the capacity": with fetch_add recv() next to push() that can hold on
     // an empty queue; C07 does not say when a push may fail, so nothing is demanded there.  The batch queue's full test counts
-    // slots claimed by calls still in flight.
-    const char* pfail = style == "pr" ? "free" : kind == "batch" ? "inflight" : "strict";
+    // slots claimed by calls still in flight, the SPSC one slots whose reader has not moved head yet.
+    const char* pfail = style == "pr" ? "free" : kind == "batch" ? "inflight" : kind == "spsc" ? "pops" : "strict";
     vt::Ev("Reset").s("prim", prim).s("kind", kind).s("style", style).i("ex", ex).i("cap", (int64_t)cap).b("flex", flex).b("os", os_clients)
         .i("np", np).i("nc", nc).i("vcpus", nvc).s("pfail", pfail).i("start", (int64_t)(0 - start));
     Exec E;
